@@ -29,6 +29,9 @@ impl FrameBuffer for RecFb {
         RecFb { w: width, h: height, px: vec![0xFF; width * height], is_border: matches!(source, FrameBufferSource::Border) }
     }
     fn set_color(&mut self, x: usize, y: usize, color: ZXColor, brightness: ZXBrightness) {
+        if x >= self.w || y >= self.h {
+            panic!("{}: pixel ({}, {}) of a {}x{} {} buffer", crate::runner::FB_RANGE_PANIC, x, y, self.w, self.h, if self.is_border { "border" } else { "canvas" });
+        }
         self.px[y * self.w + x] = (color as u8) | ((brightness as u8) << 3);
     }
 }
